@@ -116,7 +116,8 @@ def asan_key(stderr):
     if m:
         if "fatal error; see std err" in m.group(4):
             # souffle::fatal(): the message is the line printed just before the assertion
-            before = [l for l in stderr[:m.start()].splitlines() if l.strip()]
+            linestart = stderr.rfind("\n", 0, m.start()) + 1
+            before = [l for l in stderr[:linestart].splitlines() if l.strip()]
             msg = re.sub(r"\d+", "N", before[-1].strip())[:100] if before else ""
             return "assert:fatal:%s" % msg
         return "assert:%s:%s" % (os.path.basename(m.group(1)), m.group(4)[:100])
